@@ -32,6 +32,7 @@ THEOREMS = [
     "Docstring.kept_iff_in_scope", "Docstring.every_tag_rendered_or_reported_partial",
     "Docstring.every_tag_but_type_rendered_or_reported",
     "Docstring.every_tag_rendered_or_reported_counterexample", "Docstring.handlers_modelled",
+    "Epytext.listartLoop_some", "Epytext.wrapped_item_para_indent",
     "Docstring.pair_both_orders_kept", "Docstring.runPair_last_desc", "Docstring.runPair_last_type",
 ]
 PARTIAL = {
@@ -46,7 +47,11 @@ RULE = ("documents from a structure-aware generator (paragraphs of words with pu
         "that are legal in the format, nested bullet/ordered lists, inline markup incl. nested, links with and without "
         "target, escapes, symbols, literal / doctest / code blocks, sections of three levels, paragraphs whose later lines start "
         "with `=`, `-`, `~` (`-1`, `--flag`, `~user`, `=>` …) incl. lines exactly as long as the line above, every field kind "
-        "with type fields before / after their description and shuffled field order) serialised to epytext, "
+        "with type fields before / after their description and shuffled field order, field descriptions that start with "
+        "`-1`, `--verbose`, `:-)`, `::`, reST consolidated fields as bullet (`:` / ` - ` separator) and definition lists, list "
+        "items and fields whose first paragraph wraps, ends with `::` and is followed by a literal block and another paragraph, "
+        "keywords with a type and no description in an otherwise undescribed signature, properties, variables, duplicated "
+        "names) serialised to epytext, "
         "restructuredtext, google, numpy and plaintext and attached to a module, class or function of a real System. "
         "Oracle: word sequence of the rendered description == intended word sequence (formats reflow white space); "
         "<pre> blocks == intended block text character for character after removing the newline HTML ignores after <pre>, "
@@ -1135,6 +1140,9 @@ class Ser:
                     tag = self.return_tag
                 w: List[str] = []
                 body = ([("w", f["lead"])] if (f.get("lead") and not f.get("literal")) else []) + list(f["body"])
+                if not self.ep and body and body[0][0] == "w" and body[0][1].startswith(":"):
+                    # reST: `:-) … x:` at the start of a field body would itself be a field marker
+                    body = [body[0]] + [n if ":" not in self.inl(n)[0] else ("w", self.plain(n)) for n in body[1:]]
                 cons = self.consolidated if (not self.ep and f["kind"] in self.CONSOLIDATED and not f.get("literal")) else None
                 if cons:
                     # one entry of a consolidated field, written below
@@ -1743,6 +1751,55 @@ def stream_pairs(ctx: Ctx) -> None:
     ctx.count("stream:paired-field-orders", len(reqs))
 
 
+# ====================================================================== literal block after the first paragraph of an item / field
+
+ITEM_HEADS = ["- ", "1. ", "@note: ", "@param a: ", "2.1. "]
+ITEM_TEXT = ["first line", "goes on", "ends here::", "x = 1", "  deeper", "text::", "- sub", "@see: y", "after", ">>> q"]
+
+
+def gen_item_text(rng) -> Tuple[List[str], int]:
+    b = rng.choice([0, 2, 4])
+    head = rng.choice(ITEM_HEADS)
+    lines = [" " * b + head + rng.choice(["first line", "first::", "", "intro text::"])]
+    c = b + rng.choice([len(head), 2, 4, 0])
+    for _ in range(rng.randint(0, 2)):            # continuation lines of the first paragraph
+        lines.append(" " * c + rng.choice(["goes on", "ends here::", "more words", "- sub", "last::"]))
+    if rng.random() < 0.8:
+        lines.append(rng.choice(["", "", "   "]))
+    for _ in range(rng.randint(0, 3)):            # what may become the literal block
+        lines.append(rng.choice(["", " " * (c + rng.choice([0, 2, 4, 4, 6])) + rng.choice(["x = 1", "B{raw}", "  y  ", "- z"])]))
+    if rng.random() < 0.7:
+        lines.append(rng.choice(["", " "]))
+        lines.append(" " * rng.choice([b, c, c, c + 2, 0]) + rng.choice(["after I{it}", "- next", "tail"]))
+    return lines, b
+
+
+def impl_itemliteral(lines: List[str]) -> str:
+    from pydoctor.epydoc.markup import epytext as E
+    errs: List[Any] = []
+    toks = E._tokenize("\n".join(lines), errs)
+    if len(toks) >= 3 and toks[0].tag == E.Token.BULLET and toks[1].tag == E.Token.PARA and toks[1].startline == 0 \
+            and toks[2].tag == E.Token.LBLOCK:
+        return "some %s %d" % (enc(toks[2].contents), toks[2].indent)
+    return "none"
+
+
+def stream_itemliteral(ctx: Ctx) -> None:
+    from pydoctor.epydoc.markup import epytext as E
+    reqs, impls, pay = [], [], []
+    n = 4000 if ctx.quick else 60000
+    for _ in range(n):
+        lines, b = gen_item_text(ctx.rng)
+        m = E._BULLET_RE.match(lines[0], b)
+        assert m is not None
+        flags = "".join("1" if (l.strip() and E._BULLET_RE.match(l, len(l) - len(l.lstrip()))) else "0" for l in lines)
+        reqs.append("epytext itemliteral %d %d %s %s" % (b, m.end(), flags, " ".join(enc(l) for l in lines)))
+        impls.append(impl_itemliteral(lines))
+        pay.append({"item-lines": lines})
+        ctx.count("itemliteral:" + impls[-1].split()[0])
+    ctx.compare("_tokenize(item + literal)~Epytext.itemLiteral", reqs, impls, pay)
+
+
 def stream_documents(ctx: Ctx) -> None:
     n = 300 if ctx.quick else 6000
     gen = DocGen(ctx.rng)
@@ -1792,6 +1849,7 @@ def run(ctx: Ctx) -> None:
     stream_plaintext(ctx)
     stream_fields(ctx)
     stream_heading(ctx)
+    stream_itemliteral(ctx)
     stream_pairs(ctx)
     stream_documents(ctx)
 
@@ -1860,6 +1918,17 @@ def replay(ctx: Ctx, obj) -> int:
             src = inp["doctest"]
             out, rq = impl_doctestbody(src), ("epytext doctestbody %s %s" % (enc(src), example_list(src)[0])).rstrip()
         mo = ctx.driver.run([rq])[0]
+        print("impl :", out)
+        print("model:", mo)
+        return int(out != mo)
+    if isinstance(inp, dict) and "item-lines" in inp:
+        from pydoctor.epydoc.markup import epytext as E
+        lines = inp["item-lines"]
+        b = len(lines[0]) - len(lines[0].lstrip())
+        flags = "".join("1" if (l.strip() and E._BULLET_RE.match(l, len(l) - len(l.lstrip()))) else "0" for l in lines)
+        out = impl_itemliteral(lines)
+        mo = ctx.driver.run(["epytext itemliteral %d %d %s %s" % (b, E._BULLET_RE.match(lines[0], b).end(), flags, " ".join(enc(l) for l in lines))])[0]
+        print("lines:", lines)
         print("impl :", out)
         print("model:", mo)
         return int(out != mo)
